@@ -61,6 +61,17 @@ def datetime_from_timestamp(timestamp):
     return dt
 
 
+def datetime_from_ms_timestamp(timestamp):
+    """
+    Creates a timezone-agnostic datetime from an integer timestamp in milliseconds,
+    without going through floating point seconds (which cannot hold microseconds
+    for instants more than a few centuries away from the epoch).
+
+    :param timestamp: a unix timestamp, in milliseconds
+    """
+    return DATETIME_EPOC + datetime.timedelta(milliseconds=timestamp)
+
+
 def utc_datetime_from_ms_timestamp(timestamp):
     """
     Creates a UTC datetime from a timestamp in milliseconds. See
